@@ -145,6 +145,10 @@ def _gen_c(ctx, rnd):
         sv_event(_der(rr, n - ss) + bytes([flag]), pkc, msg, pre, "s->n-s")
         sv_event(sigb[:-1] + bytes([flag ^ 0x80]), pkc, msg, pre, "sighash-byte")
         sv_event(sigb[:-1] + bytes([(flag % 3) + 1 | (flag & 0x80)]), pkc, msg, pre, "sighash-byte")
+        # every single-bit change of the sighash byte (and, thorough, every other byte value): the byte is part of what is signed
+        others = [flag ^ (1 << b) for b in range(8)] + ([] if quick else [v for v in range(256) if v != flag])
+        for v in sorted(set(others)):
+            sv_event(sigb[:-1] + bytes([v]), pkc, msg, pre, "sighash-byte")
         for rv, sv_, cls in [(rr + (1 << 256), ss, "r+2^256"), (rr, ss + (1 << 256), "s+2^256"), (rr + (1 << 264), ss, "r+2^264"),
                              (rr + n, ss, "r+n"), (rr, ss + n, "s+n"), (0, ss, "r=0"), (rr, 0, "s=0"), (n, ss, "r=n"), (rr, n, "s=n"),
                              (rr + (3 << 256), ss + (5 << 256), "rs+k2^256"), ((1 << 256) - 1, ss, "r=2^256-1")]:
